@@ -76,7 +76,7 @@ ValuePool(s) ==
     [] s = 7 -> {"1"}
     [] s = 8 -> {"1"}
     [] s = 9 -> {"1"}
-    [] s = 10 -> {"1", "a b c d e f"}
+    [] s = 10 -> {"a b c d e f"}
 TitlePool(s) == IF s \in {2, 3, 4} THEN (IF Mode = "ignore" THEN {"a"} ELSE {"a", "b"})
                 ELSE IF s = 7 THEN {"a", "A"} ELSE IF s = 9 THEN {"a"} ELSE {}
 
@@ -125,8 +125,12 @@ Cfgs ==
     [] Mode = "comments"  -> {ParseCfg(FALSE, c, FALSE, 0, 0, 0) : c \in BOOLEAN}
     [] Mode = "lines"     -> {ParseCfg(FALSE, FALSE, FALSE, 0, 0, 0)}
     [] Mode = "ignore"    -> {ParseCfg(FALSE, FALSE, TRUE, 0, 0, 0)}
-    [] Mode = "callbacks" -> {ParseCfg(FALSE, FALSE, FALSE, fp, fv, ff) :
-                                fp \in 0..2, fv \in 0..2, ff \in 0..1}
+    [] Mode = "callbacks" -> (* no failure, or exactly one failing invocation (1st / 2nd of a kind) *)
+                             {ParseCfg(FALSE, FALSE, FALSE, fp, fv, ff) :
+                                fp \in 0..2, fv \in 0..2, ff \in 0..1} \cap
+                             {c \in [nocase : {FALSE}, comments : {FALSE}, ignore : {FALSE},
+                                     failParse : 0..2, failValid : 0..2, failFunc : 0..1] :
+                                (IF c.failParse > 0 THEN 1 ELSE 0) + (IF c.failValid > 0 THEN 1 ELSE 0) + c.failFunc <= 1}
 
 Init ==
   /\ sid \in Sids
